@@ -79,6 +79,8 @@ func runC09Imm(c *Ctx) {
 			case *ssa.MapUpdate:
 				ld, ok := x.Map.(*ssa.UnOp)
 				if !ok {
+					// the map arrives as a parameter, a phi or a result: the type objects it is a field of
+					c09ImmIndirect(c, fn, x, x.Map, "map write", occ)
 					return
 				}
 				fa, ok := ld.X.(*ssa.FieldAddr)
@@ -90,6 +92,7 @@ func runC09Imm(c *Ctx) {
 				if b, ok := x.Call.Value.(*ssa.Builtin); ok && b.Name() == "delete" {
 					ld, ok := x.Call.Args[0].(*ssa.UnOp)
 					if !ok {
+						c09ImmIndirect(c, fn, x, x.Call.Args[0], "delete", occ)
 						return
 					}
 					fa, ok := ld.X.(*ssa.FieldAddr)
